@@ -118,8 +118,9 @@ def generate(seed, idx, tier):
         if o['op'] == 'failed_append':
             o['at'] = rng.random()
             o['kind'] = rng.choice(('eio', 'enospc_partial', 'interrupt',
-                                    'crash') if scheme == 'hive' else
-                                   ('eio', 'enospc_partial', 'interrupt'))
+                                    'crash', 'eio_read') if scheme == 'hive'
+                                   else ('eio', 'enospc_partial', 'interrupt',
+                                         'eio_read'))
         ops.append(o)
     if not any(o['op'] == 'append' for o in ops):
         batch += 1
@@ -265,16 +266,26 @@ def _execute(case, fs, path, res, cnt, faults, probes, bump, violation,
                     fstart = footer_start(before[path])
                     fs.protected = set()
                     fs.floors = {path: fstart}
-                plan = None
+                plan = rplan = None
                 if kind == 'failed_append':
                     probe = D.clone_fs(fs.snapshot(), 'posix')
-                    probe.begin_op()
+                    probe.begin_op(track_reads=True)
                     try:
                         D.do_append(probe, path, df.copy(), op, scheme, parts)
                         m = first_meta_call(probe.log, 0)
                     except Exception:
                         m = None
-                    if m and m > 1:
+                    if op['kind'] == 'eio_read':
+                        # fail one of the read-side calls (stat, listing,
+                        # open for reading, read) the append issues before
+                        # the summary rewrite / anywhere in a single file
+                        rs = [e[0] for e in probe.rlog
+                              if not multi or (m and e[3] < m)]
+                        if rs:
+                            rplan = {rs[int(op['at'] * len(rs)) % len(rs)]:
+                                     'eio_read'}
+                            plan = {}
+                    elif m and m > 1:
                         plan = {1 + int(op['at'] * (m - 1)) % (m - 1):
                                 op['kind']}
                     elif not multi:
@@ -289,7 +300,7 @@ def _execute(case, fs, path, res, cnt, faults, probes, bump, violation,
                                     op['kind']}
                 seq0 = fs.seq
                 fs.sync_point()
-                fs.begin_op(plan, fault_rng=drng)
+                fs.begin_op(plan, fault_rng=drng, rplan=rplan)
                 err = None
                 try:
                     D.do_append(fs, path, df, op, scheme, parts,
